@@ -5,16 +5,16 @@
 // containers, sections, chunks, block entities, text components in NBT and JSON form, registry
 // and tag data) the check enumerates exhaustively:
 //
-//	(a) every byte string of length <= L over {00,01,02,0a,7f,80,ff};
+//	(a) every byte string of length <= L (quick 5, thorough 7) over {00,01,02,0a,7f,80,ff};
 //	(b) for every seed (a valid encoding of an enumerated value): every truncation, every
 //	    single-byte substitution from the same alphabet, and every length prefix the layout
 //	    walker locates overwritten (spliced) with the encodings of {-1, min, 0, actual-1,
 //	    actual+1, remaining+1, 2^20} (+ 2^62 for 64-bit counts); compressed frames additionally
 //	    with the packet length refitted to the rewritten data length;
 //	(c) self-consistent encodings whose data array / height map has the wrong size;
-//	(d) JSON text: every sequence of <= 5 tokens over a 13-token alphabet;
-//	(e) the command dispatcher: every command line of length <= 6 over {a,b,",\,space,tab}
-//	    x a family of command graphs.
+//	(d) JSON text: every sequence of <= N tokens (quick 5, thorough 6) over a 13-token alphabet;
+//	(e) the command dispatcher: every command line of length <= M (quick 6, thorough 8) over
+//	    {a,b,",\,space,tab} x a family of 30 command graphs.
 //
 // Oracle: the call returns (value or error): no panic, no call running > 20 s; and when the
 // check itself wrote a negative length, a length the rest of the input cannot satisfy, or a
@@ -488,7 +488,7 @@ func main() {
 	selftest()
 	L, N, M := 5, 5, 6
 	if rep.Thorough() {
-		L, N, M = 6, 6, 7
+		L, N, M = 7, 6, 8
 	}
 	var jobs []func(slot int)
 	jobs = append(jobs, famB(L, rep.Thorough())...) // the heavy per-decoder jobs first
